@@ -19,6 +19,7 @@ func propC02(c *Ctx) propInfo {
 	c.hashPreimage()
 	c.hashDepthLimit()
 	c.prunedAccessors()
+	c.hashIndexCounter()
 	c.hashConstants()
 	c.prunedCellLayout()
 	c.floor("E10.cursor-independence", 2)
